@@ -12,11 +12,14 @@ package main
 import (
 	"bytes"
 	"fmt"
+	"io"
 	"os"
 	"os/exec"
 	"reflect"
 	"runtime"
+	"strconv"
 	"strings"
+	"sync"
 	"time"
 
 	"com.tuntun.rangers/node/src/storage/rlp"
@@ -202,6 +205,144 @@ func (s *searcher) splitCanonical(b []byte) {
 	}
 }
 
+// sessions: sequences of calls on shared library state, checked against the one-call-at-a-time
+// answers of the implementation itself (each step re-computed in isolation afterwards).
+//   - every eb/ew/en/dr result must equal EncodeToBytes of the same value computed on its own
+//   - er must announce that length; rd pieces concatenate to a prefix of it
+//   - chk must still show the same bytes
+func (s *searcher) sessionOracle(line string) {
+	s.evals++
+	steps := strings.Split(strings.TrimPrefix(line, "api "), ";")
+	ss := &session{readers: map[string]io.Reader{}}
+	type exp struct{ enc []byte }
+	var got []string
+	ok := true
+	res := hx.Guard(func() string {
+		for _, st := range steps {
+			r, k := ss.step(st)
+			if !k {
+				ok = false
+				return "bad"
+			}
+			got = append(got, r)
+		}
+		return "fine"
+	})
+	if strings.HasPrefix(res, "PANIC") {
+		s.finding("shared-state:panic", line, res)
+		return
+	}
+	if !ok {
+		return
+	}
+	// isolated re-computation, each in a fresh session (nothing else pending)
+	alone := func(st string) string {
+		r, _ := (&session{readers: map[string]io.Reader{}}).step(st)
+		return r
+	}
+	readerEnc := map[string]string{} // id -> hex of the full encoding, computed alone
+	readerPos := map[string]int{}
+	var kept []string
+	for i, st := range steps {
+		f := strings.Split(st, ":")
+		switch f[0] {
+		case "eb", "ew", "en":
+			want := alone(st)
+			if got[i] != want {
+				s.finding("shared-state:encode", line, fmt.Sprintf("step %d (%s) gave %s, the same call on its own gives %s", i, f[0], clip(got[i]), clip(want)))
+				return
+			}
+			if got[i] != "!" {
+				kept = append(kept, got[i])
+			}
+		case "er":
+			want := alone("eb:" + f[2] + ":" + f[3])
+			if want == "!" {
+				continue
+			}
+			if want == "-" {
+				want = ""
+			}
+			readerEnc[f[1]] = want
+			readerPos[f[1]] = 0
+			if got[i] != strconv.Itoa(len(want)/2) {
+				s.finding("shared-state:reader-size", line, fmt.Sprintf("step %d announced size %s for an encoding of %d bytes", i, got[i], len(want)/2))
+				return
+			}
+		case "rd", "dr":
+			full, okr := readerEnc[f[1]]
+			if !okr {
+				continue
+			}
+			piece := strings.TrimSuffix(got[i], "$")
+			if piece == "-" {
+				piece = ""
+			}
+			p := readerPos[f[1]]
+			if p+len(piece) > len(full) || full[p:p+len(piece)] != piece || (f[0] == "dr" && p+len(piece) != len(full)) {
+				s.finding("shared-state:reader", line, fmt.Sprintf("step %d: reader %s yielded %s at offset %d of its encoding %s", i, f[1], clip(piece), p/2, clip(full)))
+				return
+			}
+			readerPos[f[1]] = p + len(piece)
+			if f[0] == "dr" {
+				kept = append(kept, full[p:])
+				if full[p:] == "" {
+					kept[len(kept)-1] = "-"
+				}
+			}
+		case "db", "dd", "sr", "sl":
+			want := alone(st)
+			if got[i] != want {
+				s.finding("shared-state:decode", line, fmt.Sprintf("step %d (%s) gave %s, on its own %s", i, f[0], clip(got[i]), clip(want)))
+				return
+			}
+		case "chk":
+			if got[i] != strings.Join(kept, ",") {
+				s.finding("shared-state:alias", line, "bytes handed out earlier changed afterwards: "+clip(got[i])+" vs "+clip(strings.Join(kept, ",")))
+				return
+			}
+		}
+	}
+}
+
+func clip(x string) string {
+	if len(x) > 120 {
+		return x[:120] + "…"
+	}
+	return x
+}
+
+// concurrent: N goroutines run sessions at the same time; every session must give what it gives
+// when run alone. Evidence, not proof (schedules are sampled; run also under -race by hand).
+func (s *searcher) concurrentOracle(r *hx.Rng) {
+	const G = 8
+	lines := make([]string, G*6)
+	want := make([]string, len(lines))
+	for i := range lines {
+		lines[i] = genApiSession(r)
+		want[i] = hx.Guard(func() string { return runApi(strings.Split(strings.TrimPrefix(lines[i], "api "), ";")) })
+	}
+	got := make([]string, len(lines))
+	var wg sync.WaitGroup
+	for g := 0; g < G; g++ {
+		wg.Add(1)
+		go func(g int) {
+			defer wg.Done()
+			for i := g; i < len(lines); i += G {
+				got[i] = hx.Guard(func() string { return runApi(strings.Split(strings.TrimPrefix(lines[i], "api "), ";")) })
+			}
+		}(g)
+	}
+	wg.Wait()
+	s.evals += len(lines)
+	for i := range lines {
+		if got[i] != want[i] {
+			s.finding("shared-state:concurrent", lines[i], "run next to 7 other goroutines the session gave "+clip(got[i])+" instead of "+clip(want[i]))
+			return
+		}
+	}
+}
+
 // alloc: bytes allocated while decoding b into interface{} / []byte stay proportional to len(b).
 func (s *searcher) alloc(t *Ty, b []byte) {
 	// building the reflect type and filling rlp's type cache allocate a lot and are not part
@@ -325,6 +466,19 @@ func searchMain(a map[string]string) {
 		s.canonical(t, b)
 	}
 
+	// shared library state: the interleaving of the round-2 seeded class first, then random sessions
+	s.sessionOracle("api er:a:R3,u64,bytes,S,str:L3,N7,B" + strings.Repeat("aa", 70) + ",L2,B616c706861,B62657461;eb:R3,u64,bytes,S,str:L3,N9,B" + strings.Repeat("55", 90) + ",L1,B78;dr:a;chk")
+	s.sessionOracle("api er:a:S,u64:L3,N1,N2,N3;dr:a;en:b:L3,B61,L3,N1,N2,N3,N9;en:r:L3,B61,L3,N1,N2,N3,N9;chk")
+	{
+		sr := hx.NewRng(hx.SeedFromEnv() ^ 0xa91)
+		for i := 0; i < 400; i++ {
+			s.sessionOracle(genApiSession(sr))
+		}
+		for i := 0; i < 6; i++ {
+			s.concurrentOracle(sr)
+		}
+	}
+
 	// exhaustive small scope, typed: every 1- and 2-byte input into a spread of types
 	small := []string{"u8", "u16", "u64", "big", "bool", "str", "bytes", "a0", "a1", "a2", "raw", "any", "S,u16", "S,bytes", "A1,u64", "A2,a1",
 		"P,u64", "R0", "R1,u64", "R2,a1,u64", "R2,u64,u64", "R1,nil,P,u64", "R1,nil,P,a1", "R2,nil,P,a1,u8", "R1,tail,S,u64", "R1,tail,S,a1", "R1,any", "R1,raw"}
@@ -436,6 +590,12 @@ func searchMain(a map[string]string) {
 			if k == 0 {
 				s.alloc(shapeTy(r, tree), enc)
 			}
+		}
+		if round%4 == 0 {
+			s.sessionOracle(genApiSession(r))
+		}
+		if round%64 == 0 {
+			s.concurrentOracle(r)
 		}
 		m := malformed(r)
 		s.canonical(anyT, m)
